@@ -1,7 +1,8 @@
 """C17 - an unreliable cache backend costs recomputation, never a wrong value or failure.
 
 Fault enumeration: a scripted Cache backend (one variant overriding exists(),
-one relying on the ABC's get()-based exists()) whose i-th call takes its
+one relying on the ABC's get()-based exists(), one of the latter kind that chains its failures
+with 'raise ... from err') whose i-th call takes its
 behaviour from a script over {behave, miss, lie-exists, forget}; ALL scripts for
 the first N backend calls x all evaluation histories (<= 3 evaluations over the
 dictionary alphabet) x {single dataset, chain, diamond, overload} sharing the
@@ -51,6 +52,12 @@ def make_backend(script, variant, counter):
             if s == "F":
                 self.store.pop(fp, None)
             if s == "M" or fp not in self.store:
+                if variant == "abc-exists-chained":
+                    # the idiom of MemoryCache.get: the failed read is reported with its cause attached
+                    try:
+                        raise KeyError(fp)
+                    except KeyError as err:
+                        raise CacheGetFailure(evaluatable, options, self) from err
                 raise CacheGetFailure(evaluatable, options, self)
             return self.store[fp]
 
@@ -97,7 +104,9 @@ def cases(tier, seed):
     N = 5 if tier == "quick" else 7
     out = []
     for gi in range(len(graphs())):
-        for variant in ("own-exists", "abc-exists"):
+        for variant in ("own-exists", "abc-exists", "abc-exists-chained"):
+            if variant == "abc-exists-chained" and gi not in (0, 2):
+                continue
             # shard by the first two script symbols: each shard is a complete sub-space
             for pre in itertools.product(SYMS, repeat=2):
                 out.append(("scripts", gi, variant, "".join(pre), N))
